@@ -48,7 +48,7 @@ var (
 		{`7`, 7},
 		{`[]int{1}`, []int{1}}, // a value zap.Any turns into an array field
 		{`zap.String("error","typed")`, typedErrKeyAtom}, // a typed field that happens to use the key the first bare error gets
-		{`errObj{}`, errObj{}}, // an error that is also an ObjectMarshaler: bare it is an error, as a pair's value zap.Any picks the object form
+		{`errObj{}`, errObj{}},                           // an error that is also an ObjectMarshaler: bare it is an error, as a pair's value zap.Any picks the object form
 	}
 )
 
@@ -59,6 +59,15 @@ func allAtomIdx() []int {
 	}
 	return idx
 }
+
+type fmtErr struct{}
+
+func (fmtErr) Error() string              { return "plain" }
+func (fmtErr) Format(f fmt.State, c rune) { fmt.Fprintf(f, "formatted(%c)", c) }
+
+type derefErr struct{ msg string }
+
+func (e *derefErr) Error() string { return e.msg }
 
 type errObj struct{}
 
@@ -511,7 +520,9 @@ type fatom struct {
 }
 
 func fAtoms(thorough bool) []fatom {
-	a := []fatom{{`1`, 1}, {`"s"`, "s"}, {`nil`, nil}, {`e1`, e1}, {`struct{}{}`, struct{}{}}, {`"a\n"`, "a\n"}}
+	a := []fatom{{`1`, 1}, {`"s"`, "s"}, {`nil`, nil}, {`e1`, e1}, {`struct{}{}`, struct{}{}}, {`"a\n"`, "a\n"},
+		{`fmtErr{}`, fmtErr{}},                 // an error that implements fmt.Formatter: fmt does not print Error()
+		{`(*derefErr)(nil)`, (*derefErr)(nil)}} // a typed-nil error whose Error dereferences: fmt prints <nil>
 	if thorough {
 		a = append(a, fatom{`2.5`, 2.5}, fatom{`"\n\n"`, "\n\n"}, fatom{`[]int{1}`, []int{1}})
 	}
